@@ -52,6 +52,10 @@ def cases(tier, seed):
             out.append({'fam': 'A', 'P': P, 'C': C, 'first': first, 'tier': tier})
     for P, C in ((3, 4), (4, 4), (4, 8)):
         out.append({'fam': 'A-dev', 'P': P, 'C': C, 'tier': tier})
+    # score rows with EQUAL values (ties at the cut): every 0/1 one-hot-column matrix - what the refinement itself writes back as alpha -
+    # and every matrix with entries in {0, 1, 2}, x all compositions
+    for P, C in ((2, 2), (2, 3), (3, 3), (2, 4), (3, 4)) + (((4, 4),) if tier == 'thorough' else ()):
+        out.append({'fam': 'A-ties', 'P': P, 'C': C, 'tier': tier})
     progs = [
         {'cin': 3, 'size': 6, 'stages': [{'op': 'conv', 'cout': 3}], 'head': 'flatlin'},
         {'cin': 3, 'size': 6, 'stages': [{'op': 'conv', 'cout': 3}, {'op': 'conv', 'cout': 3, 'k': 1}], 'head': 'gaplin'},
@@ -108,6 +112,14 @@ def _run_A(case, seed):
             for perm in perms:
                 flat = list(perm[:first]) + [n - 1] + list(perm[first:])
                 yield flat
+    elif case['fam'] == 'A-ties':
+        def mats():
+            for cols in itertools.product(range(P), repeat=C):          # one-hot columns
+                m = [[1 if cols[c] == p else 0 for c in range(C)] for p in range(P)]
+                yield [v for row in m for v in row]
+            if n <= 9:
+                for flat in itertools.product((0, 1, 2), repeat=n):      # small integer scores
+                    yield list(flat)
     else:
         base = list(range(n))
 
@@ -295,11 +307,25 @@ def _run_B_wide(case, seed):
                 before_cost = float(nas.get_cost('ne16'))
             with contextlib.redirect_stdout(io.StringIO()):
                 nas = optimize_prec_assignment(nas, 'ne16')
+                # ... and once more on its own result (the refinement writes 0/1 coefficients back: every score row is full of ties)
+                if case.get('twice', True):
+                    with torch.no_grad():
+                        nas.eval()
+                        nas(x)
+                        mid_bits = _bits(nas)
+                        mid_cost = float(nas.get_cost('ne16'))
+                    nas = optimize_prec_assignment(nas, 'ne16')
             with torch.no_grad():
                 nas.eval()
                 nas(x)
                 after_bits = _bits(nas)
                 after_cost = float(nas.get_cost('ne16'))
+            if case.get('twice', True):
+                dem2 = [(ln, c) for ln in mid_bits for c in range(len(mid_bits[ln])) if after_bits[ln][c] < mid_bits[ln][c]]
+                if dem2:
+                    add('channel-demoted', 'channel-demoted/second-refinement', f'a second refinement of the refined model lowers channels {dem2[:4]}')
+                if after_cost > mid_cost * (1 + 1e-6) + 1e-6:
+                    add('cost-raised', 'cost-raised/second-refinement', f"second refinement: get_cost('ne16') {mid_cost} -> {after_cost}")
             bad_cols = False
             for _, m in [(n, m) for n, m in GM.selectors(nas) if m.alpha.dim() == 2]:
                 a = m.alpha.detach()
@@ -327,6 +353,8 @@ def _run_B_wide(case, seed):
 
 
 def run_case(case, seed):
+    if case['fam'] == 'A-ties':
+        return _run_A(case, seed)
     if case['fam'] == 'B-wide':
         return _run_B_wide(case, seed)
     return _run_B(case, seed) if case['fam'] == 'B' else _run_A(case, seed)
